@@ -125,7 +125,9 @@ theorem parse_tail (sp : Strptime) (fmt input : Bytes) (z : Tz.Zone) (al : Tz.Ab
     rw [beq_eq_false_iff_ne]; omega
   simp only [endState, mkSt, Bool.false_eq_true, if_false, List.isEmpty_nil, skipSpace,
     List.dropWhile_nil, Bool.not_true, if_true, ne_eq, not_true_eq_false, h60]
-  rw [Ck.bindv, reset_val, Ck.bindv, Ck.pure_val, Ck.bindv, Ck.pure_val]
+  rw [Ck.bindv, reset_val, Ck.bindv, Ck.pure_val]
+  simp only []
+  rw [if_neg (by omega), Ck.bindv, Ck.pure_val]
   simp only []
   rw [Ck.bindv, Ck.pure_val]
   simp only []
